@@ -170,6 +170,32 @@ def run(ctx: Ctx):
         c = ctx.repo.get_class(DS, cn)
         cfn = c.methods["collate_fn"]
         ctx.ob("C17.d", f"{cn}.collate_fn:identity", "return batch" in ast.unparse(cfn.node) and len(cfn.node.body) <= 2, cfn.loc, "batched __getitems__ result passed through", construct=f"{cn}.collate_fn")
+    # the index handed in by the sampler is used as is
+    for cn, mn in (("FastTdDataset", "__getitems__"), ("TensorDictDatasetFastGeneration", "__getitems__"), ("TensorDictDataset", "__getitem__"), ("ExtraKeyDataset", "__getitem__")):
+        c = ctx.repo.get_class(DS, cn)
+        m = c.methods[mn]
+        ip = m.params()[1]
+        rebound = [n for n in ast.walk(m.node) if isinstance(n, ast.Name) and n.id == ip and isinstance(n.ctx, ast.Store)]
+        ctx.ob("C17.d", f"{cn}.{mn}:index-not-rewritten", not rebound, m.loc,
+               f"the index parameter `{ip}` is used as given" if not rebound else f"the index parameter `{ip}` is rebound before use: items may be fetched for other positions than requested",
+               construct=f"{cn}.{mn}:index-rebound")
+    # evaluation loaders of the Lightning module keep dataset order
+    for mn in ("_dataloader", "_dataloader_single"):
+        fi2 = ctx.repo.get_function("rl4co/models/rl/common/base.py", f"RL4COLitModule.{mn}")
+        a = fi2.node.args
+        names = [x.arg for x in a.args]
+        dflt = dict(zip(names[len(names) - len(a.defaults):], a.defaults))
+        d = dflt.get("shuffle")
+        okd = isinstance(d, ast.Constant) and d.value is False
+        rebound = [n for n in ast.walk(fi2.node) if isinstance(n, ast.Name) and n.id == "shuffle" and isinstance(n.ctx, ast.Store)]
+        ctx.ob("C17.b", f"RL4COLitModule.{mn}:shuffle-default-false", okd and not rebound, fi2.loc,
+               "shuffle defaults to False and is passed through unchanged: val/test loaders (which do not pass it) keep dataset order" if (okd and not rebound) else
+               "the default / value of `shuffle` is not the constant False: validation and test loaders may be shuffled",
+               construct=f"RL4COLitModule.{mn}:shuffle-default")
+    tl = ctx.repo.get_function("rl4co/models/rl/common/base.py", "RL4COLitModule.train_dataloader")
+    vl = ctx.repo.get_function("rl4co/models/rl/common/base.py", "RL4COLitModule.val_dataloader")
+    ok = "self.shuffle_train_dataloader" in ast.unparse(tl.node) and "shuffle" not in ast.unparse(vl.node)
+    ctx.ob("C17.b", "RL4COLitModule:train-vs-val-shuffle", ok, tl.loc, "only the training loader receives the shuffle setting", construct="RL4COLitModule:loader-shuffle")
     # training loader
     fi = ctx.repo.get_function("rl4co/models/rl/common/base.py", "RL4COLitModule._dataloader_single")
     ctx.fn(fi)
